@@ -5,6 +5,21 @@ def c08(ctx):
     return server_family.run(ctx, "C08", None)
 
 
+def c02(ctx):
+    return server_family.run(ctx, "C02", 64)
+
+
+def c06(ctx):
+    return server_family.run(ctx, "C06", 22)
+
+
+def c07(ctx):
+    return server_family.run(ctx, "C07", 32)
+
+
 CHECKS = {
+    "C02": c02,
+    "C06": c06,
+    "C07": c07,
     "C08": c08,
 }
